@@ -921,7 +921,7 @@ class DirectoryRecord:
 
         underflow = False
         total_size = (num_extents - 1) * logical_block_size + dirrecord_offset
-        if (self.data_length - total_size) > logical_block_size:
+        if (self.data_length - total_size) >= logical_block_size:
             self.data_length -= logical_block_size
             # We also have to make sure to update the length of the dot child,
             # as that should always reflect the length.
